@@ -101,7 +101,87 @@ def histories(tier):
                 shared = f"tx{rng_u.below(10 ** 6)}"
                 for r in rng_u.shuffle(list(rows))[:rng_u.range(2, min(4, len(rows)))]:
                     r["uid"] = shared
-    return cases
+    return cases + ods_twins(cases, tier)
+
+
+ODS_SHARE = 8          # one generated case in 8 (12.5 %) gets an end-to-end twin ...
+
+
+def ods_twins(cases, tier):
+    """the end-to-end ("ods") stream: twins of generated cases that are run from real .ini / .ods files through parse_ods
+    (hist.ods_case): one case in ODS_SHARE, and ALWAYS those with an acquisition paying its fee in crypto (the parser splits
+    such a row); among them sub-second timestamps are frequent.  Only cases whose numbers are exact at 11 decimals as
+    doubles qualify.  Plus a few targeted ones (hist.gen_threshold): a lot with a crypto fee and a sub-second timestamp,
+    disposed of around the long-term threshold."""
+    rng = core.Rng(core.seed(), 23)
+    out = []
+    for k, c in enumerate(cases):
+        if c.get("via") or not (k % ODS_SHARE == 3 or hist.has_in_crypto_fee(c)) or not hist.ods_eligible(c):
+            continue
+        t = hist.ods_case(c, rng)
+        if t is not None:
+            out.append(t)
+    for k in range(60 if tier == "quick" else 600):
+        t = hist.ods_case(hist.gen_threshold(rng), rng)
+        if t is not None:
+            out.append(t)
+    return out
+
+
+def is_ods(case):
+    return case.get("via") == "ods"
+
+
+CCODE = {"InTransaction": 0, "OutTransaction": 1, "IntraTransaction": 2}
+
+
+def ods_models(cases, impl):
+    """model outputs for ods cases in the shapes of commands 10 / 11 / 13, all from command 31 (the Coq parser applied to the
+    cells read back from the file, then the same pipeline): -> (model, spec, events, full decoded ComputedData)"""
+    from harness import l4
+    args = [i.pop("line") for i in impl]
+    raw = core.run_model([hist.line(31, [0] + a) for a in args])
+    spec = core.run_model([hist.line(31, [1] + a) for a in args])
+    model, events, full = [], [], []
+    for c, r in zip(cases, raw):
+        d = l4.decode_computed(r, c)
+        full.append(d)
+        if "err" in d:
+            model.append([r[0]])
+            events.append([r[0]])
+            continue
+        m = [0, len(d["fractions"])]
+        for f in d["fractions"]:
+            m += [f["ev"], 0 if f["lot"] is None else 1, 0 if f["lot"] is None else f["lot"], f["amt"]]
+        model.append(m)
+        e = [0, len(d["events"])]
+        for row, cname, _, earn, amt in d["events"]:
+            e += [row, CCODE[cname], earn, amt]
+        events.append(e)
+    return model, spec, events, full
+
+
+def run_cases(cases):
+    """-> dict(cases, impl, model, spec, events): the implementation and the model on every case; ods cases go end to end
+    on both sides (real files + parse_ods / command 31), their entry in 'odsfull' is the model's whole ComputedData"""
+    impl = core.pool_map(_impl_matcher, cases, init=core.impl_env_setup)
+    plain = [k for k, c in enumerate(cases) if not is_ods(c)]
+    ods = [k for k, c in enumerate(cases) if is_ods(c)]
+    enc = [hist.encode_hist(cases[k]) for k in plain]
+    res = {"cases": cases, "impl": impl, "odsfull": {}}
+    outs = {"model": core.run_model([hist.line(10, e) for e in enc]), "spec": core.run_model([hist.line(11, e) for e in enc]),
+            "events": core.run_model([hist.line(13, e) for e in enc])}
+    om, osp, oev, ofull = ods_models([cases[k] for k in ods], [impl[k] for k in ods]) if ods else ([], [], [], [])
+    for name, o in (("model", om), ("spec", osp), ("events", oev)):
+        merged = [None] * len(cases)
+        for k, v in zip(plain, outs[name]):
+            merged[k] = v
+        for k, v in zip(ods, o):
+            merged[k] = v
+        res[name] = merged
+    for k, d in zip(ods, ofull):
+        res["odsfull"][str(k)] = d
+    return res
 
 
 def run(tier):
@@ -110,13 +190,7 @@ def run(tier):
     got = cache_get(name)
     if got:
         return got
-    cases = histories(tier)
-    impl = core.pool_map(_impl_matcher, cases, init=core.impl_env_setup)
-    enc = [hist.encode_hist(c) for c in cases]
-    model = core.run_model([hist.line(10, e) for e in enc])
-    spec = core.run_model([hist.line(11, e) for e in enc])
-    events = core.run_model([hist.line(13, e) for e in enc])
-    res = {"cases": cases, "impl": impl, "model": model, "spec": spec, "events": events}
+    res = run_cases(histories(tier))
     cache_put(name, res)
     return res
 
